@@ -38,7 +38,7 @@ pub fn prop() -> Prop {
          that data reproduces it with no errors. Non-trivial: the operation selects a nested list or an abstract type; \
          distinct by operation + schema + configuration + generated data.",
     )
-    .random("responses", check, |t| dev_scale(if t == Tier::Quick { 150_000 } else { 3_000_000 }), |t| if t == Tier::Quick { 900 } else { 1500 })
+    .random("responses", check, |t| dev_scale(if t == Tier::Quick { 400_000 } else { 10_000_000 }), |t| if t == Tier::Quick { 900 } else { 1500 })
     .text(check_text)
     .assumptions(&[
         "the type of a response position is the field definition of the CONCRETE object type chosen there (ExecuteSelectionSet looks the field up on objectType), which may be narrower than the interface's definition the selection was written against",
@@ -49,8 +49,8 @@ pub fn prop() -> Prop {
     ])
 }
 
-fn opts() -> exec_ops::Opts {
-    exec_ops::Opts { conditions: false, introspection_meta: false, fill_abstract_p: 256, ..exec_ops::Opts::default() }
+fn opts(tier: Tier) -> exec_ops::Opts {
+    exec_ops::Opts { conditions: false, introspection_meta: false, fill_abstract_p: 256, ..c26::opts(tier) }
 }
 
 #[derive(Clone, Debug)]
@@ -117,6 +117,7 @@ impl<'a> Checker<'a> {
     fn object(&mut self, v: &serde_json::Map<String, Json>, static_type: &str, sets: &[&'a [Selection]], path: &mut Path) -> Result<Shaped, (String, String)> {
         let possible = self.schema.possible_types(static_type);
         let mut first_err: Option<(String, String)> = None;
+        let mut typename_err: Option<(String, String)> = None;
         let mut keys_seen: Vec<String> = vec![];
         for t in &possible {
             let (grouped, unspec) = rx::collect_fields(self.schema, self.doc, self.variables, t, sets);
@@ -130,8 +131,9 @@ impl<'a> Checker<'a> {
             // every __typename must name this type
             let typename_ok = grouped.iter().all(|(k, fs)| fs[0].name != "__typename" || v.get(k) == Some(&Json::String(t.clone())));
             if !typename_ok {
-                if first_err.is_none() {
-                    first_err = Some(("C33|shape|typename".into(), format!("at {}: keys fit {} but __typename says otherwise: {}", path_string(path), t, Json::Object(v.clone()))));
+                // reported only if no candidate gets further
+                if typename_err.is_none() {
+                    typename_err = Some(("C33|shape|typename".into(), format!("at {}: keys fit {} but __typename says otherwise: {}", path_string(path), t, Json::Object(v.clone()))));
                 }
                 continue;
             }
@@ -167,7 +169,7 @@ impl<'a> Checker<'a> {
                 }
             }
         }
-        Err(first_err.unwrap_or_else(|| {
+        Err(first_err.or(typename_err).unwrap_or_else(|| {
             let got: Vec<&String> = v.keys().collect();
             ("C33|shape|keys".into(), format!("at {}: keys {:?} are the collected response keys of no possible type of {} ({})", path_string(path), got, static_type, keys_seen.join("; ")))
         }))
@@ -285,7 +287,7 @@ fn list_lengths(v: &Json, out: &mut Vec<usize>) {
 
 pub fn check(bytes: &[u8], ctx: &mut Ctx) -> Outcome {
     let (cb, rb) = exec_ops::split_world_bytes(bytes);
-    let case = exec_ops::case(&cb, &opts());
+    let case = exec_ops::case(&cb, &opts(ctx.tier));
     let mut c = Choices::new(&rb);
     let cfg = config(&mut c);
     evaluate(&case, &cfg, ctx)
